@@ -150,3 +150,19 @@ impl notify::EventHandler for NotifyEventHandler {
         }
     }
 }
+
+#[cfg(assets_manager_verif)]
+pub(super) fn verif_id_of_path(root: &Path, path: &Path) -> Option<OwnedDirEntry> {
+    id_of_path(&mut IdBuilder::default(), root, path)
+}
+
+#[cfg(assets_manager_verif)]
+pub(super) fn verif_handle_event(roots: Vec<PathBuf>, events: super::EventSender, event: notify::Event) {
+    let mut handler = NotifyEventHandler {
+        roots,
+        events,
+        id_builder: IdBuilder::default(),
+        watcher: None,
+    };
+    notify::EventHandler::handle_event(&mut handler, Ok(event));
+}
